@@ -298,7 +298,8 @@ def run_one(argv):
     log = open(os.path.join(VERIF, "logs", f"{prop}-{a.tier}.log"), "w")
     violations = []      # (replay_path, suffix)
     known_hits = {}
-    known = [k for k in load_known() if k.get("property") == prop]
+    # an additional engine (--parent) shares the known-findings entries of its property
+    known = [k for k in load_known() if k.get("property") in (prop, getattr(a, "parent", None)) and k.get("property")]
     open_sigs = {}
     for k in known:
         if k.get("status") == "open":
@@ -452,7 +453,7 @@ def finish(prop, a, cfg, t0, violations, known_hits, obligations, discharged, ch
             for sg in ([k["signature"]] if "signature" in k else []) + k.get("signatures", []):
                 open_k[sg] = k
     for sig, n in sorted(known_hits.items()):
-        print(f"KNOWN-FINDING: property={prop} {open_k[sig].get('what', sig)} [signature {sig}, {n} case(s) this run]")
+        print(f"KNOWN-FINDING: property={getattr(a, 'parent', None) or prop} {open_k[sig].get('what', sig)} [signature {sig}, {n} case(s) this run]")
     cov = {
         "obligations": obligations,
         "discharged": discharged,
